@@ -6,7 +6,7 @@ use wow_mpq::compression::decompress_secure;
 use wow_mpq::{SecurityLimits, SessionTracker, compress, decompress};
 
 const LOSSLESS: &[(u8, &str)] = &[(0x02, "zlib"), (0x10, "bzip2"), (0x12, "lzma"), (0x20, "sparse"), (0x08, "pkware"), (0x22, "sparse+zlib"), (0x30, "sparse+bzip2")];
-const LOSSY: &[(u8, &str)] = &[(0x40, "adpcm-mono"), (0x80, "adpcm-stereo"), (0x42, "adpcm-mono+zlib"), (0x41, "adpcm-mono+huffman"), (0x81, "adpcm-stereo+huffman"), (0x82, "adpcm-stereo+zlib")];
+const LOSSY: &[(u8, &str)] = &[(0x40, "adpcm-mono"), (0x80, "adpcm-stereo"), (0x42, "adpcm-mono+zlib"), (0x41, "adpcm-mono+huffman"), (0x81, "adpcm-stereo+huffman"), (0x82, "adpcm-stereo+zlib"), (0x50, "adpcm-mono+bzip2"), (0x90, "adpcm-stereo+bzip2"), (0x60, "adpcm-mono+sparse"), (0xA0, "adpcm-stereo+sparse")];
 const COMPRESS_ONLY_ERR: &[(u8, &str)] = &[(0x01, "huffman"), (0x04, "implode")];
 const CLASSES: &[&str] = &["zero", "ff", "period2", "period3", "period255", "runs", "litruns", "random", "text", "half", "sparse", "tailz1", "tailz2", "tailz3", "tailz129"];
 
